@@ -829,6 +829,24 @@ func c15QueueExit(c *engine.Ctx, rule string, m *mqFacts) {
 				} else {
 					why = "the deferred exit handler does not release the peer's memory on every path"
 				}
+				// the peer-wide release must come before the queue announces its own end: once the owner has been told,
+				// a successor queue for the same peer may already be reserving memory, which a later peer-wide release would wipe
+				if shutF := c.P.Field("messagequeue", "MessageQueue", "onShutdown"); shutF != nil {
+					var rel, ann ssa.Instruction
+					engine.Instrs(fn, func(in ssa.Instruction) {
+						if isRel(in) {
+							rel = in
+						}
+						if cc, ok := in.(*ssa.Call); ok && !cc.Call.IsInvoke() && cc.Call.StaticCallee() == nil && fieldReadOf(cc.Call.Value) == shutF {
+							ann = in
+						}
+					})
+					if rel != nil && ann != nil {
+						c.Decide(rule, key+"|release-before-announcing-exit", ann.Pos(), engine.Before(rel, ann),
+							"the peer's memory is released before the queue tells its owner that it has ended",
+							"the queue tells its owner it has ended before releasing the peer's memory: a successor queue for the same peer can reserve memory in between, and the peer-wide release then wipes the successor's reservations (returned twice, accounted memory no longer matches unsent data)")
+					}
+				}
 			}
 			c.Decide(rule, key, root.Pos(), ok2, "deferred ReleasePeerMemory at goroutine entry covers every exit", why)
 		})
